@@ -351,6 +351,10 @@ def run_property(mod, tier: str, seed: int, replay: str | None = None, jobs: int
     else:
         tier_for_run = tier
 
+    stride = int(os.environ.get("VERIF_CASE_STRIDE", "0") or 0)
+    if stride > 1 and not replay:
+        # smoke-testing aid only (never set by the registered commands): run every k-th case
+        all_cases = all_cases[::stride]
     ids = [c.id for c in all_cases]
     if len(set(ids)) != len(ids):
         dup = sorted({i for i in ids if ids.count(i) > 1})
